@@ -1,5 +1,5 @@
 /*UNIT
-{"props": ["C18"], "kind": "K1", "tier": "quick", "timeout": 600,
+{"props": ["C18"], "kind": "K1", "tier": "thorough", "timeout": 900,
  "extra_src": ["stubs/mem_sampled.c"],
  "replace": ["ZDICT_analyzeEntropy"],
  "functions": ["ZDICT_finalizeDictionary","ZDICT_getDictID","ZDICT_maxRep"],
